@@ -15,7 +15,8 @@ import (
 // C11 — built-in functions meet their contracts, are pure and keep UTF-8 valid.
 
 type c11Case struct {
-	Mode  string `json:"mode"` // call | pure | precedence
+	Mode  string `json:"mode"`            // call | pure | precedence | site
+	Recv2 Val    `json:"recv2,omitempty"` // site: the second receiver reaching the same call site
 	Recv  Val    `json:"recv"`
 	Fn    string `json:"fn"`
 	Args  []Val  `json:"args,omitempty"`
@@ -185,6 +186,44 @@ func c11Check(cs c11Case) (ok bool, sig, expected, observed string) {
 		}
 		if o.Kind != KOut || o.Out != want {
 			return false, "not-pure/" + cs.Fn + "+" + cs.Fn2, expected, o.String()
+		}
+		return true, "", expected, o.String()
+	case "site":
+		// the same call expression is evaluated twice, with receivers of different types
+		src := "@each(o in [{v: " + cs.Recv.Lit() + "}, {v: " + cs.Recv2.Lit() + "}, {v: " + cs.Recv.Lit() + "}])[{{ o.v." + cs.Fn + "(" + litArgs(cs.Args) + ") }}];@end"
+		want := ""
+		wantErr := false
+		unspec := false
+		for _, rv := range []Val{cs.Recv, cs.Recv2, cs.Recv} {
+			ref := c11Ref(cs.Fn, rv, cs.Args)
+			if ref.unspec || ref.perm || ref.member || len(ref.alts) > 1 || (ref.errOK && len(ref.alts) > 0) {
+				unspec = true
+				break
+			}
+			if len(ref.alts) == 0 {
+				wantErr = true
+				break
+			}
+			p, pok := ref.alts[0].Print()
+			if !pok {
+				unspec = true
+				break
+			}
+			want += "[" + p + "];"
+		}
+		o := runString(src, nil)
+		expected = fmt.Sprintf("Value(%q) for %s", want, strconvQuote(src))
+		if wantErr {
+			expected = "Error for " + strconvQuote(src)
+		}
+		if o.Kind == KPanic || o.Kind == KHang {
+			return false, o.Kind + "@" + o.Site, expected, o.String()
+		}
+		if unspec {
+			return true, "", "unspecified", o.String()
+		}
+		if wantErr != (o.Kind == KErr) || (!wantErr && o.Out != want) {
+			return false, "call-site-reuse/" + cs.Recv.K + "-then-" + cs.Recv2.K + "." + cs.Fn, expected, o.String()
 		}
 		return true, "", expected, o.String()
 	case "precedence":
@@ -496,6 +535,35 @@ func c11Run(c *Ctx) {
 				// precedence of the built-in over a custom function of the same name
 				if _, isBuiltin := c11MaxArgs[fn]; isBuiltin && ri < 6 && !c11NoSuchFunc(fn, r) {
 					if !do(c11Case{Mode: "precedence", Recv: r, Fn: fn, Args: nil}, ri) {
+						return
+					}
+				}
+			}
+		}
+	}
+	// one call site, receivers of different types
+	siteRecv := []Val{vStr("abc"), vArr(vInt(1), vInt(2)), vInt(5), vFloat(2.5), vBool(true)}
+	var allFns []string
+	seenFn := map[string]bool{}
+	for _, k := range []string{VStr, VArr, VInt, VFloat, VBool} {
+		for _, f := range c11Funcs[k] {
+			if !seenFn[f] {
+				seenFn[f] = true
+				allFns = append(allFns, f)
+			}
+		}
+	}
+	for _, fn := range allFns {
+		if !c.Mine() {
+			continue
+		}
+		for _, r1 := range siteRecv {
+			for _, r2 := range siteRecv {
+				if r1.K == r2.K {
+					continue
+				}
+				for _, args := range [][]Val{nil, {vInt(1)}, {vStr("a")}} {
+					if !do(c11Case{Mode: "site", Recv: r1, Recv2: r2, Fn: fn, Args: args}, 0) {
 						return
 					}
 				}
